@@ -56,6 +56,8 @@ type Task struct {
 	started bool
 	prio    int
 	goid    uint64 // id of the goroutine that runs the task
+	// BlockedSite is the lock site at which the task last found a lock taken
+	BlockedSite uint32
 	// blockedAt is the value of Sched.progress when the task last found a
 	// lock taken; it is not scheduled again before somebody else has run.
 	blockedAt int64
@@ -69,7 +71,10 @@ type SchedCfg struct {
 	EstSteps uint64 `json:"est_steps,omitempty"`
 	Victim   int    `json:"stall_victim,omitempty"`
 	GCEvery  int    `json:"gc_one_in,omitempty"` // 0 = never
-	MaxSteps uint64 `json:"max_steps"`
+	// SyncEvery > 0: a switch is forced at one of the next SyncEvery
+	// synchronisation points after every hand-off
+	SyncEvery int    `json:"sync_one_in,omitempty"`
+	MaxSteps  uint64 `json:"max_steps"`
 }
 
 // Sched is the scheduler of one run.
@@ -85,24 +90,28 @@ type Sched struct {
 	free      uint32 // atomic: free-run fallback active
 	wg        sync.WaitGroup
 
-	Steps      uint64
-	Switches   int
-	GCs        int
-	Stalled    uint64 // steps executed while the victim was starved
-	FreeRun    bool
-	Deadlock   bool
-	StepCapHit bool
-	SiteHits   []uint32 // per-site hit counts (index = site id)
-	PreemptAt  map[uint32]int
-	Pairs      map[uint64]struct{}
-	sig        uint64
-	changeAt   []uint64
-	rrNext     int
-	Watchdog   time.Duration
-	progress   int64 // hand-offs that were not "lock taken"
-	LockWaits  int   // times a task found a lock taken and was descheduled
-	Foreign    int   // hand-off points reached by goroutines that are not simulation tasks
-	allBlocked int
+	Steps           uint64
+	Switches        int
+	GCs             int
+	Stalled         uint64 // steps executed while the victim was starved
+	FreeRun         bool
+	Deadlock        bool
+	StepCapHit      bool
+	SiteHits        []uint32 // per-site hit counts (index = site id)
+	PreemptAt       map[uint32]int
+	Pairs           map[uint64]struct{}
+	sig             uint64
+	changeAt        []uint64
+	rrNext          int
+	Watchdog        time.Duration
+	progress        int64 // hand-offs that were not "lock taken"
+	freeRunDeadline time.Duration
+	syncCountdown   int64 // synchronisation points until a forced switch (-1: never)
+	SyncPoints      int   // synchronisation points passed
+	SyncSwitches    int   // context switches forced at synchronisation points
+	LockWaits       int   // times a task found a lock taken and was descheduled
+	Foreign         int   // hand-off points reached by goroutines that are not simulation tasks
+	allBlocked      int
 }
 
 // NewSched creates a scheduler; nSites sizes the coverage table.
@@ -126,6 +135,9 @@ func DrawSchedCfg(t *Tape, nTasks int, estSteps uint64, typicalOp int) SchedCfg 
 	c.PCTDepth = 1 + t.Choose("cfg", "pct_depth", 3)
 	c.EstSteps = estSteps
 	c.Victim = t.Choose("cfg", "victim", nTasks)
+	if t.Chance("cfg", "syncpre", 3, 4) {
+		c.SyncEvery = []int{1, 2, 4}[t.Choose("cfg", "sync_every", 3)]
+	}
 	if t.Chance("cfg", "gc", 1, 4) {
 		c.GCEvery = 1 + t.Choose("cfg", "gc_every", 16)
 	}
@@ -218,6 +230,40 @@ func curGoid() uint64 {
 	return id
 }
 
+// SyncPoint is the hook of synchronisation points (just before a lock is
+// taken, just after one is released).  A context switch there is forced
+// after a tape-decided number of such points, independently of the quantum:
+// the window between two lock operations is a handful of statements wide and
+// uniform preemption almost never lands in it.
+//
+//go:norace
+//go:noinline
+func (s *Sched) SyncPoint(site uint32) {
+	if atomic.LoadUint32(&s.free) != 0 {
+		return
+	}
+	t := s.cur
+	if t == nil || s.syncCountdown < 0 {
+		return
+	}
+	s.SyncPoints++
+	s.syncCountdown--
+	if s.syncCountdown > 0 {
+		return
+	}
+	if curGoid() != t.goid {
+		return
+	}
+	s.Steps++
+	t.Steps++
+	if int(site) < len(s.SiteHits) {
+		s.SiteHits[site]++
+	}
+	s.SyncSwitches++
+	s.lastSite = site
+	s.handoff(t, evYield)
+}
+
 // Blocked is the hook of the cooperative Lock: the current task found the
 // lock taken.  It always hands control back; the scheduler will not pick
 // this task again before some other task has run.
@@ -245,6 +291,7 @@ func (s *Sched) Blocked(site uint32) {
 		s.SiteHits[site]++
 	}
 	s.lastSite = site
+	t.BlockedSite = site
 	s.handoff(t, evBlocked)
 }
 
@@ -432,6 +479,7 @@ func (s *Sched) Run() {
 			// verdict if nobody ever finishes).
 			s.allBlocked++
 			if s.allBlocked > 2000 {
+				s.freeRunDeadline = 5 * time.Second
 				s.freeRunFallback(live)
 				return
 			}
@@ -440,6 +488,13 @@ func (s *Sched) Run() {
 		}
 		next := s.pick(rl)
 		s.countdown = s.quantum()
+		// forced switch at the k-th synchronisation point from here
+		switch s.Cfg.SyncEvery {
+		case 0:
+			s.syncCountdown = -1
+		default:
+			s.syncCountdown = 1 + int64(s.T.Choose("sched", "sync", s.Cfg.SyncEvery))
+		}
 		if s.Cfg.GCEvery > 0 && s.T.Choose("sched", "gc", s.Cfg.GCEvery) == 0 && s.GCs < 16 {
 			runtime.GC()
 			s.GCs++
@@ -534,7 +589,11 @@ func (s *Sched) freeRunFallback(live int) {
 		default:
 		}
 	}
-	deadline := time.After(20 * time.Second)
+	dl := s.freeRunDeadline
+	if dl == 0 {
+		dl = 20 * time.Second
+	}
+	deadline := time.After(dl)
 	// the task that timed out may still deliver its pending event
 	doneCh := make(chan struct{})
 	go func() { s.wg.Wait(); close(doneCh) }()
